@@ -338,6 +338,72 @@ func checkC07(c *Ctx) {
 		}
 	}
 
+	// ---- C07.12 "at most once per client registration" / "a probe is sent only when one is required": a delivery is
+	// tracked before it is probed or shared, so that a second delivery of the same registration that arrives while the
+	// probe is in flight is recognised as a duplicate (it neither probes nor shares again)
+	r.Rule("C07.12", "a delivery is tracked before its liveness probe and before it is shared", 1)
+	if f := c.fn("C07.12", lib, "RegistrationManager", "ingestRegistration"); f != nil {
+		tr, okT := findOneDeep(f, shortIs("TrackRegistration"))
+		if !okT {
+			r.Unk("C07.12", "ingestRegistration: TrackRegistration", f.Pos(), fnName(f), "call not found")
+		} else {
+			site := tr.site()
+			n := 0
+			for _, what := range []string{"PhantomIsLive", "tryShareRegistrationOverAPI"} {
+				for _, l := range findDeep(f, shortIs(what), 2) {
+					n++
+					tgt := l.site()
+					early, w := reach(f, nil, isInstr(tgt), isInstr(site), nil)
+					if early {
+						r.Bad("C07.12", "ingestRegistration: "+what+" reachable before the delivery is tracked", tgt.Pos(), fnName(f),
+							"the registration is not in the table while its probe is outstanding: a second delivery of the same registration is not recognised as a duplicate, runs its own probe and is shared with the peers a second time", r.blockPath(f, w)...)
+					} else {
+						r.OK("C07.12", "ingestRegistration: tracked before "+what, tgt.Pos(), "must-pass")
+					}
+				}
+			}
+			if n == 0 {
+				r.Unk("C07.12", "ingestRegistration: probe / share", f.Pos(), fnName(f), "neither PhantomIsLive nor the share call found")
+			}
+		}
+	}
+	// ---- C07.13 "marked as pre-scanned": in the message built for the peers nothing is merged over the flags after the
+	// mark was set (proto.Merge lets a field set in the source win: a client-written prescanned=false would undo it)
+	r.Rule("C07.13", "nothing is merged into the shared message's flags after the pre-scanned mark is set", 1)
+	if f := c.fn("C07.13", lib, "DecoyRegistration", "GenerateC2SWrapper"); f != nil {
+		var marks []ssa.Instruction
+		eachInstr(f, func(in ssa.Instruction) {
+			if st, ok := in.(*ssa.Store); ok {
+				if o, fld, ok := fieldOwner(st.Addr); ok && o == "proto.RegistrationFlags" && fld == "Prescanned" {
+					marks = append(marks, in)
+				}
+			}
+		})
+		if len(marks) == 0 {
+			r.Unk("C07.13", "GenerateC2SWrapper: Prescanned store", f.Pos(), fnName(f), "not found")
+		}
+		isMerge := func(in ssa.Instruction) bool {
+			call, ok := in.(*ssa.Call)
+			if !ok {
+				return false
+			}
+			n := calleeName(&call.Call)
+			if !strings.HasSuffix(n, "proto.Merge") && !strings.HasSuffix(n, "proto.Unmarshal") && !strings.HasSuffix(n, ".UnmarshalMerge") {
+				return false
+			}
+			return len(call.Call.Args) > 0 && (strings.Contains(typeShort(stripConv(call.Call.Args[0]).Type()), "RegistrationFlags") || strings.Contains(typeShort(stripConv(call.Call.Args[0]).Type()), "ClientToStation"))
+		}
+		for _, m := range marks {
+			over, w := reach(f, m, isMerge, nil, nil)
+			if over {
+				r.Bad("C07.13", "GenerateC2SWrapper: a merge into the flags follows the pre-scanned mark", m.Pos(), fnName(f),
+					"after Prescanned was set, another message is merged into the flags: a field set in the merged message wins, so a client that wrote prescanned=false has its registration shared unmarked and the peer probes it again", r.blockPath(f, w)...)
+			} else {
+				r.OK("C07.13", "GenerateC2SWrapper: the pre-scanned mark is the last word on the flags", m.Pos(), "no proto.Merge / Unmarshal into the flags reachable after the store")
+			}
+		}
+	}
+
 	// ---- C07.4 family gates
 	r.Rule("C07.4", "family gates and the IPv6-registrant / IPv4-phantom rejection", 3)
 	// the switches the gates read are the operator's: nothing in the program sets enable_v4 / enable_v6 (a "neither is
